@@ -23,6 +23,7 @@ type Report struct {
 	t0      time.Time
 	prelude string
 	tmp     string
+	vacuity map[string]any
 }
 
 type KnownFinding struct {
@@ -151,6 +152,37 @@ func (r *Report) finish() int {
 		}
 	}
 	exit := 0
+	vacTotal, vacReach := 0, 0
+	var vacBad, vacDead []string
+	for _, fr := range r.results {
+		if fr.ctx == nil {
+			continue
+		}
+		for _, vc := range fr.ctx.vacuity {
+			vacTotal++
+			switch vc.status {
+			case "unsat":
+				dead := false
+				for _, d := range fr.fc.Dead {
+					if strings.HasSuffix(vc.what, ": "+d) {
+						dead = true
+					}
+				}
+				if dead {
+					vacDead = append(vacDead, fr.key+": "+vc.what)
+				} else {
+					vacBad = append(vacBad, fr.key+": "+vc.what)
+				}
+			case "sat":
+				vacReach++
+			}
+		}
+	}
+	r.vacuity = map[string]any{"returns_checked": vacTotal, "shown_reachable": vacReach, "unreachable": vacBad, "declared_dead_code": vacDead}
+	for _, v := range vacBad {
+		fmt.Printf("govc: VACUOUS %s — assumptions contradict each other on this path\n", v)
+		exit = 2
+	}
 	ids := sortedKeys(props)
 	for _, id := range ids {
 		ps := props[id]
@@ -183,7 +215,7 @@ func (r *Report) finish() int {
 			exit = 2
 		}
 		r.writeEvidence(ps, viol)
-		if viol > 0 {
+		if viol > 0 && exit == 0 {
 			exit = 1
 		}
 		fmt.Printf("property %s: %d obligations, %d discharged, %d known findings, %d violations, %d not attempted (%.1fs)\n",
@@ -276,6 +308,7 @@ func (r *Report) writeEvidence(ps *propSummary, viol int) {
 		"known_findings_hit":       knownHit,
 		"notes":                    notes,
 		"generator_errors":         ps.genErrs,
+		"vacuity":                  r.vacuity,
 		"timing_s":                 map[string]float64{"load_ssa": round2(r.loadS), "generate": round2(r.genS), "solve": round2(r.solveS)},
 	}
 	ev := map[string]any{
